@@ -182,20 +182,25 @@ from props.c03_oracle import FINDINGS, ORACLES as _EVENT_ORACLES  # noqa: E402,F
 ORACLES = list(_EVENT_ORACLES) + [c03_models.ORACLE]
 
 TRUSTED = [
-    "tokens → text: `Xs.Sax.render` is compared byte for byte with XMLGenerator's output; that the text parses to the infoset `Spec.XmlNs.infoset` assigns to the tokens is checked by sampling against expat and lxml, not proved (no XML parser in Lean)",
-    "Spec/XmlNs.lean is my transcription of XML 1.0 (5th ed.) Char/NCName and of the Namespaces in XML 1.0 constraints",
-    "lxml's ElementTreeContentHandler + serializer are not modelled: the lxml writer is tied to the model's SAX calls by correspondence only",
-    "CPython dict order / str.replace / str.partition are modelled by hand (Xml/Dict.lean)",
+    "tokens → text: `Xs.Sax.render` is compared byte for byte with XMLGenerator's output; that this text parses to the infoset `Spec.XmlNs.infoset` assigns to the tokens is checked by sampling against expat and lxml, not proved (no XML parser in Lean); escape/quoteattr are proved invertible and markup-free (escape_inverse, quoteattr_inverse)",
+    "Spec/XmlNs.lean is my transcription of XML 1.0 (5th ed.) Char/NCName, end-of-line handling and the Namespaces in XML 1.0 constraints; `isNCName` is compared with libxml2's name validation on all code points < 0x250 and the range edges",
+    "lxml's ElementTreeContentHandler + serializer are not modelled: the lxml writer is tied to the model's SAX calls by correspondence only (handler_denotes_events_partial is about those calls)",
+    "metadata → events (builders.py, EventGenerator) is not modelled; Spec/ObjectTree.lean (declarative reading of the metadata, no theorems) is compared with XmlSerializer.render on random binding models (op ser.object)",
+    "CPython dict order / str.replace / str.partition / str(int) are modelled by hand (Xml/Dict.lean, Py/Basic.lean)",
 ]
 ASSUMPTIONS = [
-    "element and attribute local names prescribed by the metadata are NCNames, namespace URIs are non-empty and contain no '}'",
+    "element and attribute local names prescribed by the metadata are NCNames, namespace URIs are non-empty and contain no '}' (inputs outside are not judged by the oracle)",
     "SerializerError / XmlWriterError are the permitted failures; any other exception counts as a violation",
-    "xml_version/encoding of the configuration keep their defaults (1.0 / UTF-8)",
+    "xml_version/encoding of the configuration keep their defaults (1.0 / UTF-8); the theorems cover indent=None and no schemaLocation attributes (plainCfg), indentation and root attributes are covered by correspondence only",
+    "event values are str / QName / lists of them / None (what EventGenerator.encode_primitive produces); int/bool atoms are modelled and compared but excluded from the theorems",
 ]
 LEVEL_TEXT = (
-    "Lean theorems over all event lists and all user prefix maps for the EventHandler/XMLGenerator state machine "
-    "(see Props/C03.lean), tied to /repo by a differential check of the native writer's exact text, the SAX call "
-    "sequence, the lxml writer's infoset, clean_prefixes/split_qname/load_prefix/generate_prefix/escape/quoteattr."
+    "Lean theorems for all user prefix maps in userMapOK and all well-nested event sequences in contentOK/shapeOK: the "
+    "EventHandler state machine issues exactly the calls of a recursive writer (L1), XMLGenerator turns them into a "
+    "namespace-well-formed document whose infoset is the tree of those calls (L2: prefix-generation freshness, default-"
+    "namespace reset, uri→prefix context vs scope invariants), which is the tree an independent reader assigns to the "
+    "events (L3); counterexample theorems for each excluded region; model tied to /repo by a differential check of the "
+    "native writer's exact text, the SAX call sequence, the lxml writer's infoset, the metadata reading and the namespace helpers."
 )
 LEVEL_NOTE = (
     "Trusted: Lean kernel; hand model of dict/str primitives; XML/Namespaces spec transcription; token→text→parser link by sampling; "
